@@ -173,7 +173,18 @@ impl Report {
     /// return the process exit code.
     pub fn finish(&self) -> i32 {
         let known = load_known_findings();
-        let vs = self.violations.lock().unwrap().clone();
+        let mut vs = self.violations.lock().unwrap().clone();
+        // replay-by-rerun: only the recorded violation counts, nothing is written
+        let dry = std::env::var("TCMC_DRY").is_ok();
+        if let Ok(sig) = std::env::var("TCMC_REPLAY_SIG") {
+            vs.retain(|v| v.signature == sig);
+        }
+        if dry {
+            for v in &vs {
+                println!("replay: {}", v.what);
+            }
+            return if vs.is_empty() { 0 } else { 1 };
+        }
         let mut new_violations = vec![];
         let mut known_hits = vec![];
         for v in &vs {
